@@ -412,6 +412,95 @@ pub fn check_path_step(kind: Kind, pre: &[u8], post: &[u8], op: &PathOp, unwound
 	Ok(())
 }
 
+/// One step of the list model over a set of candidate lists: the outcomes of `mop` on any
+/// candidate that are shield-equivalent to the segment list observed afterwards.
+fn model_next(cands: &[Segs], abs_eff: bool, also_relative: bool, mop: &MPathOp, observed: &Segs) -> Vec<Segs> {
+	let got = strip(observed).to_vec();
+	let mut next: Vec<Segs> = Vec::new();
+	for c in cands {
+		let mut outs = path_outcomes(abs_eff, c, mop);
+		if also_relative {
+			for o in path_outcomes(false, c, mop) {
+				if !outs.contains(&o) {
+					outs.push(o);
+				}
+			}
+		}
+		for o in outs {
+			if strip(&o) == &got[..] && !next.contains(&o) {
+				next.push(o);
+			}
+		}
+	}
+	next.truncate(8);
+	next
+}
+
+fn to_mop(op: &PathOp) -> Option<MPathOp<'_>> {
+	Some(match op {
+		PathOp::Push(s) => MPathOp::Push(s.as_bytes()),
+		PathOp::Pop => MPathOp::Pop,
+		PathOp::Clear => MPathOp::Clear,
+		PathOp::SymPush(s) => MPathOp::SymPush(s.as_bytes()),
+		PathOp::SymAppend(items, mode) => MPathOp::SymAppend(effective_items(items, *mode).iter().map(|s| s.as_bytes()).collect()),
+		PathOp::Normalize | PathOp::Read => return None,
+	})
+}
+
+/// Threads the list model along the views of ONE run (the continued handle's). A handle is
+/// allowed to know more than the text does - e.g. whether a leading '.' was pushed as a segment
+/// or written as a shield - so where its views differ from the fresh-handle run they are judged
+/// against the model threaded through its own history instead (C10 asks that edits through one
+/// handle compose; "as if freshly obtained" is C11's wording, not C10's). Returns the index of
+/// the first operation whose view no outcome of the threaded model explains.
+fn first_unexplained_view(pre_path: &[u8], follows_auth: bool, ops: &[BOp<PathOp>], views: &[Vec<u8>], fresh_views: &[Vec<u8>], unwound: &[usize]) -> usize {
+	let mut cands = PathModel::from_text(pre_path).cands;
+	let mut prev: Vec<u8> = pre_path.to_vec();
+	let mut diverged = false;
+	for i in 0..ops.len().min(views.len()) {
+		let v = &views[i];
+		if i > 0 && ops[i].life != Life::Keep {
+			// a re-obtained handle starts from the text again
+			cands = PathModel::from_text(&prev).cands;
+		}
+		if fresh_views.get(i) != Some(v) {
+			diverged = true;
+		}
+		let (abs2, segs2) = path_segs(v);
+		let abs = prev.first() == Some(&b'/');
+		match to_mop(&ops[i].op) {
+			None => {
+				let ok = match ops[i].op {
+					PathOp::Read => *v == prev,
+					// what normalisation yields is not modelled: before any divergence it must simply
+					// agree with the fresh-handle run; afterwards nothing is demanded of it
+					_ => diverged || fresh_views.get(i) == Some(v),
+				};
+				if !ok {
+					return i;
+				}
+				cands = PathModel::from_text(v).cands;
+			}
+			Some(_) if unwound.contains(&i) => cands = PathModel::from_text(v).cands,
+			Some(mop) => {
+				if follows_auth && !v.is_empty() && !abs2 {
+					return i;
+				}
+				if !follows_auth && abs2 != abs {
+					return i;
+				}
+				let next = model_next(&cands, abs || follows_auth, follows_auth && prev.is_empty(), &mop, &segs2);
+				if next.is_empty() {
+					return i;
+				}
+				cands = next;
+			}
+		}
+		prev = v.clone();
+	}
+	usize::MAX
+}
+
 /// C11 model: RFC 3986 section 3.2 reassembly with the one replaced part.
 pub fn expected_after_auth_op(pre: &[u8], op: &AuthOp) -> Option<(Vec<u8>, Vec<u8>)> {
 	let s = split5(pre);
@@ -891,7 +980,16 @@ impl Exec {
 			}
 			probes_path(kind, before, after, &ops[i].op, stats);
 		}
-		// oracle 5: restart equivalence A == B
+		// oracle 5: restart equivalence. The continued handle (run A) must agree with the
+		// fresh-handle run (B) - or, where it does not, be explained by the list model threaded
+		// through its own history, leave the other components alone and view its own path.
+		let s_pre = split_for(kind, &pre);
+		let follows_auth0 = s_pre.authority.is_some();
+		let unexplained = first_unexplained_view(s_pre.path(&pre), follows_auth0, ops, &a.views, &b.views, &a.unwound);
+		let frame_ok = |t: &[u8]| -> bool {
+			let st = split_for(kind, t);
+			st.scheme(t) == s_pre.scheme(&pre) && st.authority(t) == s_pre.authority(&pre) && st.query(t) == s_pre.query(&pre) && st.fragment(t) == s_pre.fragment(&pre)
+		};
 		for i in 0..ops.len() {
 			let before = b_before(i);
 			let (sp, sa) = sig_of(i, before);
@@ -903,35 +1001,45 @@ impl Exec {
 			};
 			stats.tuple(&sp, &opn, &sa, if i == 0 { 1 } else { life });
 			if a.views[i] != b.views[i] {
-				return violation(
-					Prop::C10,
-					"restart_equivalence",
-					idx,
-					Some(i),
-					opn,
-					"the view through the continued handle differs from a fresh handle's after the same edits".into(),
-					Some(before),
-					Some(&b.views[i]),
-					Some(&a.views[i]),
-					sp,
-					sa,
-				);
+				if i < unexplained {
+					stats.hit("continued_handle_differs_but_is_explained_by_the_model");
+				} else {
+					return violation(
+						Prop::C10,
+						"restart_equivalence",
+						idx,
+						Some(i),
+						opn,
+						"the view through the continued handle differs from a fresh handle's after the same edits, and the list model threaded through the handle's own history does not explain it".into(),
+						Some(before),
+						Some(&b.views[i]),
+						Some(&a.views[i]),
+						sp,
+						sa,
+					);
+				}
 			}
 			if let Some(Some(t)) = a.between.get(i) {
-				if t.as_slice() != before {
+				if t.as_slice() != before && !(i <= unexplained && frame_ok(t) && i > 0 && split_for(kind, t).path(t) == &a.views[i - 1][..]) {
 					return violation(Prop::C10, "restart_equivalence", idx, Some(i), opn, "buffer text under the continued handle differs from the fresh-handle run".into(), Some(before), Some(before), Some(t), sp, sa);
 				}
 			}
 		}
 		if a.final_text != b.final_text {
 			let i = ops.len() - 1;
-			let (sp, sa) = sig_of(i, b_before(i));
-			return violation(Prop::C10, "restart_equivalence", idx, Some(i), ops[i].op.name(), "final buffer differs between the continued-handle run and the fresh-handle run".into(), Some(&pre), Some(&b.final_text), Some(&a.final_text), sp, sa);
+			let sf = split_for(kind, &a.final_text);
+			let explained = unexplained == usize::MAX && frame_ok(&a.final_text) && a.views.last().map(|v| &v[..]) == Some(sf.path(&a.final_text));
+			if !explained {
+				let (sp, sa) = sig_of(i, b_before(i));
+				let oracle = if unexplained == usize::MAX && !frame_ok(&a.final_text) { "frame_after_continued_handle" } else { "restart_equivalence" };
+				return violation(Prop::C10, oracle, idx, Some(i), ops[i].op.name(), "final buffer differs between the continued-handle run and the fresh-handle run".into(), Some(&pre), Some(&b.final_text), Some(&a.final_text), sp, sa);
+			}
 		}
 		// oracle 4 (window): the last view occupies exactly the model-located range
 		let s = split_for(kind, &a.final_text);
 		if let Some((off, len)) = a.end_window {
-			if (off, len) != (s.path.start, s.path.len()) {
+			// (an empty view carries no byte: where it points is not observable)
+			if len + s.path.len() > 0 && (off, len) != (s.path.start, s.path.len()) {
 				let i = ops.len() - 1;
 				let (sp, sa) = sig_of(i, b_before(i));
 				return violation(
@@ -953,7 +1061,12 @@ impl Exec {
 		if !kind.is_path() {
 			let s0 = split5(&pre);
 			let p0 = s0.path(&pre);
-			let skip = s0.authority.is_some() && p0.is_empty();
+			// After an authority the empty path is written "" or "/" and is absolute either way:
+			// absoluteness is compared only once a segment exists. When the burst STARTS from the
+			// empty path after an authority the comparison is skipped altogether, because what
+			// `pop` does there is left open (DESIGN 2.4) and a stand-alone path has no such state.
+			let after_auth = s0.authority.is_some();
+			let skip = after_auth && p0.is_empty();
 			if !skip {
 				let pk = if iri { Kind::IriPathBuf } else { Kind::UriPathBuf };
 				if let Some(mut po) = parse_kind(pk, p0) {
@@ -963,7 +1076,8 @@ impl Exec {
 						for i in 0..ops.len().min(c.views.len()) {
 							let (ea, es) = path_segs(&a.views[i]);
 							let (ca, cs) = path_segs(&c.views[i]);
-							if ea != ca || strip(&es) != strip(&cs) {
+							let abs_differs = ea != ca && !(after_auth && es.is_empty() && cs.is_empty());
+							if abs_differs || strip(&es) != strip(&cs) {
 								let (sp, sa) = sig_of(i, b_before(i));
 								return violation(
 									Prop::C10,
@@ -1010,7 +1124,20 @@ impl Exec {
 		let mut b_owner = self.owner.clone().unwrap();
 		let a = match self.owner.as_mut().unwrap().auth_burst(ops, false) {
 			Some(a) => a,
-			None => return Outcome::Invalid,
+			None => {
+				// the reference has an authority (RFC 3986 Appendix B) but the library hands out
+				// no handle for it: the edits C11 is about cannot be made at all
+				if !quiet {
+					stats.hit("authority_handle_unavailable");
+				}
+				return if prop == Prop::C11 {
+					let s = split5(&pre);
+					let au = s.authority(&pre).unwrap_or(b"");
+					violation(Prop::C11, "handle_unavailable", idx, Some(0), ops[0].op.name(), "the reference has an authority but authority_mut() returns None".into(), Some(&pre), None, None, format!("{},first-in-burst", auth_class(au)), "none".into())
+				} else {
+					Outcome::Abandon
+				};
+			}
 		};
 		if quiet {
 			return if a.panic.is_some() { Outcome::Abandon } else { Outcome::Ok };
@@ -1177,7 +1304,7 @@ impl Exec {
 		let ar = s.authority.clone().unwrap_or(0..0);
 		for (w, what) in [(a.end_window, "handle_window"), (a.into_window, "into_authority_window")] {
 			if let Some((off, len)) = w {
-				if (off, len) != (ar.start, ar.len()) {
+				if len + ar.len() > 0 && (off, len) != (ar.start, ar.len()) {
 					let i = ops.len() - 1;
 					let (sp, sa) = sig_of(i, b_before(i));
 					return violation(
@@ -1372,6 +1499,9 @@ pub struct RunCfg {
 	/// per-op lifecycle weights: keep, reopen, leak
 	pub w_life: [u32; 3],
 	pub iter_faults: bool,
+	/// an unwinding caller iterator is injected only where the property speaks about it (C04:
+	/// the type invariant must survive it); C10/C11 quantify over valid arguments only
+	pub allow_unwind: bool,
 	pub owner_events: bool,
 	/// step-kind weights: set, resolve, convert, path burst, authority burst, direct, roundtrip, clone twin
 	pub w_step: [u32; 8],
@@ -1408,6 +1538,7 @@ pub fn draw_cfg(rng: &mut Rng, prop: Prop, thorough: bool, kind: Kind) -> RunCfg
 		max_burst: mb,
 		w_life,
 		iter_faults: rng.chance(1, 3),
+		allow_unwind: prop == Prop::C04,
 		owner_events: rng.chance(1, 2),
 		w_step,
 	}
@@ -1605,11 +1736,12 @@ fn gen_path_op(g: &mut Gen, cfg: &RunCfg, cur_path: &[u8]) -> PathOp {
 		2 => PathOp::Clear,
 		3 => PathOp::SymPush(gen_segment_arg(g, cur_path)),
 		4 => {
-			let n = g.rng.below(5);
+			// mostly a few items; now and then more than any inline buffer would hold
+			let n = if g.rng.chance(1, 25) { g.rng.range(5, 40) } else { g.rng.below(5) };
 			let items: Vec<String> = (0..n).map(|_| gen_segment_arg(g, cur_path)).collect();
 			let mode = if cfg.iter_faults && g.rng.chance(1, 2) {
 				let k = g.rng.below(items.len() + 1);
-				if g.rng.chance(1, 2) {
+				if cfg.allow_unwind && g.rng.chance(1, 2) {
 					IterMode::Unwind(k)
 				} else {
 					IterMode::Short(k)
